@@ -27,6 +27,9 @@ def _immutable_literal(e):
         return all(_immutable_literal(x) for x in e.elts)
     if isinstance(e, ast.Call) and isinstance(e.func, ast.Name) and e.func.id == "frozenset" and len(e.args) == 1 and not e.keywords:
         return _literal(e.args[0])
+    # a compiled struct format: an immutable value determined by its format string
+    if isinstance(e, ast.Call) and ((isinstance(e.func, ast.Name) and e.func.id == "Struct") or (isinstance(e.func, ast.Attribute) and e.func.attr == "Struct" and isinstance(e.func.value, ast.Name) and e.func.value.id == "struct")) and len(e.args) == 1 and not e.keywords and isinstance(e.args[0], ast.Constant):
+        return True
     return False
 
 
@@ -188,6 +191,9 @@ def _pure(e):
         return all(x is None or _pure(x) for x in (e.lower, e.upper, e.step))
     if isinstance(e, ast.Call) and not e.keywords and all(_pure(a) for a in e.args):
         if isinstance(e.func, ast.Name) and e.func.id in _PURE_CALLS:
+            return True
+        # a compiled struct format is an immutable value determined by its format string
+        if ((isinstance(e.func, ast.Name) and e.func.id == "Struct") or (isinstance(e.func, ast.Attribute) and e.func.attr == "Struct" and isinstance(e.func.value, ast.Name) and e.func.value.id == "struct")) and len(e.args) == 1 and isinstance(e.args[0], ast.Constant):
             return True
         if isinstance(e.func, ast.Attribute) and e.func.attr in _PURE_METHODS and _pure(e.func.value):
             return True
